@@ -90,8 +90,10 @@ def run(ck):
             continue
         parts = t.split(" ")
         hslot = int(parts[1].split("=")[1]) if len(parts) > 1 and parts[1].startswith("hslot=") else -1
-        ovf = len(parts) > 2 and parts[2] == "ovf"       # an integer expression over the substituted overrides overflows 32 bits
-        vmap = " ".join(parts[(3 if ovf else 2):]) if len(parts) > 2 else ""
+        flags = [x for x in parts[2:4] if x in ("ovf", "f32lit")]
+        ovf = "ovf" in flags          # an integer expression over the substituted overrides overflows 32 bits
+        f32lit = "f32lit" in flags    # an unsuffixed integer literal of an initialiser is not exactly representable in f32
+        vmap = " ".join(parts[2 + len(flags):]) if len(parts) > 2 else ""
         ck.case(s + vmap, nontrivial=("= (" in s or vmap != ""))
         viols = []
         status = i.split("|")[-1].strip()
@@ -131,6 +133,8 @@ def run(ck):
                     continue
                 if mt.get("needs_overflow") and not ovf:
                     continue
+                if mt.get("needs_f32lit") and not f32lit:
+                    continue
                 if re.fullmatch(mt.get("kind", "$^").strip("^$") if mt.get("kind", "").startswith("^") else re.escape(mt.get("kind", "")), kind) \
                         and re.search(mt.get("knob_regex", ".*"), knob) and re.search(mt.get("class_regex", ".*"), cls):
                     fid = fid or k["id"]
@@ -163,8 +167,9 @@ def run(ck):
             route = t.split(" ")[0]
             knob = t.split(" ")[1]
             rparts = t.split(" ")
-            rovf = len(rparts) > 3 and rparts[3] == "ovf"
-            rvals = " ".join(rparts[(4 if rovf else 3):])
+            rflags = [x for x in rparts[3:5] if x in ("ovf", "f32lit")]
+            rovf = "ovf" in rflags
+            rvals = " ".join(rparts[3 + len(rflags):])
             ck.case(route + s + t, nontrivial=True)
             if l.startswith("(routeerr "):
                 r = "ERROR " + unq(l[len("(routeerr "):-1].strip('"'))
